@@ -60,7 +60,7 @@ func bindReference(broken func(format string, a ...interface{})) *bindStats {
 		v := Rec{"version": uint64(60002), "services": uint64(1), "timestamp": uint64(0x50d0b211),
 			"addr_recv": na, "addr_from": nf, "nonce": uint64(0x6517e68c5db32e3b),
 			"user_agent": []byte("/Satoshi:0.7.2/"), "start_height": uint64(212672), "relay": uint64(1)}
-		p, _ := rw.Encode(rw.ByCmd("version").Fields, v, rw.Ctx{Pver: 60002})
+		p := rw.EncodeBytes(rw.ByCmd("version").Fields, v, rw.Ctx{Pver: 60002})
 		if got := rw.Frame(0xd9b4bef9, "version", p); !bytes.Equal(got, dv) {
 			broken("refwire version layout disagrees with the protocol documentation example: %s", firstDiff(got, dv))
 		}
@@ -81,7 +81,7 @@ func bindReference(broken func(format string, a ...interface{})) *bindStats {
 		if err != nil || n != len(raw) {
 			broken("refwire cannot parse %s: %v (%d of %d bytes)", f, err, n, len(raw))
 		}
-		re, _ := rw.Encode(rw.BlockFields, blk, rw.Ctx{Witness: true})
+		re := rw.EncodeBytes(rw.BlockFields, blk, rw.Ctx{Witness: true})
 		if !bytes.Equal(re, raw) {
 			broken("refwire re-encoding of %s differs: %s", f, firstDiff(re, raw))
 		}
@@ -156,7 +156,7 @@ func bindReference(broken func(format string, a ...interface{})) *bindStats {
 			if err != nil || n != len(raw) {
 				continue // deliberately malformed vectors exist in tx_invalid
 			}
-			re, _ := rw.EncodeTx(t, true)
+			re := rw.EncodeTxBytes(t, true)
 			if !bytes.Equal(re, raw) {
 				broken("refwire re-encoding of a %s vector differs: %s", name, firstDiff(re, raw))
 			}
@@ -183,7 +183,7 @@ func bindReference(broken func(format string, a ...interface{})) *bindStats {
 			if err != nil || n != len(raw) {
 				broken("refwire cannot parse a sighash.json transaction: %v", err)
 			}
-			re, _ := rw.EncodeTx(t, false)
+			re := rw.EncodeTxBytes(t, false)
 			if !bytes.Equal(re, raw) {
 				broken("refwire re-encoding of a sighash.json vector differs")
 			}
@@ -204,7 +204,7 @@ func bindReference(broken func(format string, a ...interface{})) *bindStats {
 		if err != nil || n != len(raw) {
 			broken("refwire cannot parse megatx: %v", err)
 		}
-		re, _ := rw.EncodeTx(t, true)
+		re := rw.EncodeTxBytes(t, true)
 		if !bytes.Equal(re, raw) {
 			broken("refwire re-encoding of megatx differs")
 		}
